@@ -302,6 +302,25 @@ def handle (req : Json) : Except String Json := do
         ("jac", match Impl.jacobian m π mt with
           | some rows => Json.arr (rows.map fun r => jstrs (r.map exprS)).toArray
           | none => Json.null)])
+  | "split" =>
+    let text ← (← req.getObjVal? "text").getStr?
+    let comp ← (← req.getObjVal? "comp").getStr?
+    let π := depOrderOfJ (req.getObjVal? "deps").toOption
+    match loadString text with
+    | .error e => pure (errJ e.toString)
+    | .ok ld =>
+      let m := ld.model
+      let namesOf (c : Comp) : List Gx.Name := c.states ++ c.params ++ c.inters ++ c.derivs
+      let subNames := (ld.comps.filter (·.name == comp)).flatMap namesOf
+      let restNames := (ld.comps.filter (·.name != comp)).flatMap namesOf
+      let part (names : List Gx.Name) : Json :=
+        let pm := Impl.restrict m (fun x => names.contains x)
+        Json.mkObj [("states", jstrs pm.stateNames), ("params", jstrs pm.paramNames), ("assigns", jstrs pm.assignNames),
+          ("missing", jstrs (Impl.missingVariables pm)),
+          ("layout", match Impl.layout pm π with
+            | some L => Json.mkObj [("state", jstrs L.state), ("param", jstrs L.param), ("monitor", jstrs L.monitor), ("missing", jstrs L.missing)]
+            | none => Json.null)]
+      pure (Json.mkObj [("ok", Json.bool true), ("sub", part subNames), ("rest", part restNames)])
   | "topo" =>
     let addsJ ← (← req.getObjVal? "adds").getArr?
     let adds ← addsJ.toList.mapM fun a => do
